@@ -331,3 +331,20 @@ Proof.
     destruct (runner_fails (normalise vt s) m); [discriminate|]. rewrite (IH _ _ Hr). reflexivity. }
   intros H. rewrite (Hreg _ _ _ H). exact Hv.
 Qed.
+
+(* Factory.GetComponents() (Model/FactoryX.v bulk_core_xt): when it succeeds, what it returns for every name is the
+   version published for that name when it returns — the same a lookup by name gives from then on *)
+Lemma bulk_core_xt_published vt s x : fix_c03 vt = true -> forall ns st o st' vs,
+  topX st -> bulk_core_xt vt s x ns st = (o, (st', Ok vs)) ->
+  topX st' /\ keeps (reg st) (reg st') /\ Forall2 (fun n v => alookup n (L1 (reg st')) = Some v) ns vs.
+Proof.
+  intros Hfix. induction ns as [|n r IH]; intros st o st' vs Ht H; cbn [bulk_core_xt] in H.
+  - inversion H; subst. split; [exact Ht|]. split; [apply keeps_refl|constructor].
+  - destruct (do_get_xt vt s x (fuel_of s) st n) as [o1 [[st1 v]|k st1]] eqn:E; [|inversion H].
+    destruct (topX_do_get vt s x _ st n o1 st1 v Hfix Ht E) as [Ht1 [Hk1 Hv1]].
+    destruct (bulk_core_xt vt s x r st1) as [o2 [st2 r2]] eqn:E2.
+    destruct r2 as [vs2|k2 l2]; inversion H; subst.
+    destruct (IH st1 o2 st' vs2 Ht1 E2) as [Ht' [Hk2 Hall]].
+    split; [exact Ht'|]. split; [eapply keeps_trans; eauto|].
+    constructor; [|exact Hall]. apply (top_cur_L1 st' n v Ht'). apply Hk2. exact Hv1.
+Qed.
